@@ -319,12 +319,13 @@ def run_core(c):
             if not t:
                 continue
             ring, p = pos[i]
-            assign.append([t, ring, p, {'flowrate': flows[i]}])
+            assign.append([t, ring, p, {'flowrate': flows[i] * (60.0 if c.get('mfr') == 'kg/min' else 1.0)}])
             power[str(i + 1)] = spec_from(wmap[i])
         setup = {'param_update_tol': c['tol']} if c.get('tol') else {}
         if c.get('starved') is not None:
             setup['conv_approx'] = True
-        return {'setup': setup, 'core': {'inlet': 623.15, 'length': L, 'pitch': 0.064, 'gap_model': gm,
+        return {'setup': setup, 'units': ({'mass_flow_rate': c['mfr']} if c.get('mfr') else None),
+                'core': {'inlet': 623.15, 'length': L, 'pitch': 0.064, 'gap_model': gm,
                                           'bypass_fraction': 0.0 if gm == 'none' else 0.05,
                                           'coolant': c.get('coolant', 'sodium_se2anl_425')},
                 'types': {t: types[t] for t in sorted(set(x for x in layout if x))},
@@ -440,6 +441,9 @@ def cases(tier):
         for st in (2, 5):
             core.append(dict(layout=['A'] * 7, gap_model='flow', elements=[1, 2, 3], starved=st))
         core.append(dict(layout=['A', 'B', 'A', 'B', 'A', 'B', 'A'], gap_model='none', elements=[1, 4], starved=3))
+        # flow rates written in kg/min, cores with empty positions (every position's flow is converted)
+        for lay in (['B', 'A', None, 'A', 'A', 'B', 'A'], [None, 'A', 'A', None, 'B', 'A', 'B']):
+            core.append(dict(layout=lay, gap_model='flow', elements=[1, 2, 4], mfr='kg/min'))
         lay19 = (['A', 'B', 'A', 'A', 'B'] * 4)[:19]
         for vac, gm in ((0, 'no_flow'), (4, 'duct_average'), (11, 'flow')):
             lay = list(lay19)
